@@ -30,7 +30,8 @@ def check(ctx):
     for r, t in (("SIB-7", "vector form == group form == spec table (threshold, default, statistic, NA wiring)"),
                  ("GRD-kernel", "identity-less statistics are bound with nrequired >= 1"),
                  ("MPT-3", "group-aware protocol: default set on every path, group_aware marked"),
-                 ("FWD", "first/last delegate to nth with drop_na forwarded")):
+                 ("FWD", "first/last delegate to nth with drop_na forwarded"),
+                 ("MEMO-key", "memoised kernel factories are keyed on all of their arguments")):
         ctx.rule(r, t)
     ctx.trust("spec table C07_SPEC copied from the property statement")
     n = 0
@@ -153,6 +154,9 @@ def check(ctx):
                "closure is returned without group_aware=True: DataFrame.aggregate would call it once per group with a frame",
                clause="a shorthand helper yields the same summary as a lambda")
     ctx.count("helpers with both forms", n, 14)
+    from .shared import memo_keys
+    nm = memo_keys(ctx, {A.AGG}, "ddof, index and q arguments reach the statistic of every call")
+    ctx.count("memoised kernel factories", nm, 1)
     # ------------------------------------------------------------------ FWD
     for name, idx in A.DELEGATING.items():
         fn = repo.fn(f"{A.AGG}.{name}")
